@@ -692,7 +692,8 @@ def match_known(known, prop, o, f):
 
 def finish(prop, tier, seed, t_start, obls, results, violations, known_hits, inconclusive, report, checker_cmds, code):
     wall = time.time() - t_start
-    os.makedirs(os.path.join(VERIF, "evidence"), exist_ok=True)
+    evdir = os.environ.get("VERIF_EVIDENCE_DIR") or os.path.join(VERIF, "evidence")
+    os.makedirs(evdir, exist_ok=True)
     os.makedirs(os.path.join(VERIF, "replays"), exist_ok=True)
     discharged = [o for o in obls if results.get(o["name"], {}).get("status") in ("Success", "verified")]
     n_proved = len([o for o in discharged if o["class"] == "proved"])
@@ -768,7 +769,7 @@ def finish(prop, tier, seed, t_start, obls, results, violations, known_hits, inc
         "wall_s": round(wall, 1),
         "violations": len(seen),
     }
-    json.dump(ev, open(os.path.join(VERIF, "evidence", "%s.json" % prop), "w"), indent=1)
+    json.dump(ev, open(os.path.join(evdir, "%s.json" % prop), "w"), indent=1)
     print("%s tier=%s obligations=%d discharged=%d (proved %d, bounded %d) violations=%d known=%d inconclusive=%d wall=%.0fs"
           % (prop, tier, len(obls), len(discharged), n_proved, n_bounded, len(seen), len(known_hits), len(inconclusive), wall))
     return code
